@@ -819,5 +819,5 @@ def rule_descend(ctx, prop):
                                   f"range-only visitor (formatter calls on the path: {calls}): blocks nested in an out-of-range "
                                   f"statement (`return function() .. end`, `return {{ f = function() .. end }}`) are never searched, so "
                                   f"statements inside the range stay unformatted", f.loc(t["sp"]), cfg)
-        rep.floor("should_format_node sites over iterated statements", n, 2, cfg)
+        rep.floor("should_format_node sites over iterated statements", n, 1, cfg)
     return rep
